@@ -350,13 +350,22 @@ def fields_rule(ctx, facts, rid):
         return
     bad = None
     n = 0
+    combos = []
     for side in (0, 1):
         src_rank = 3 if side == 0 else 4          # rank index of a pawn that has just made a double step, seen by the side to move
-        dst_digit = "6" if side == 0 else "3"
         for cr in range(16):
             for ep in [None] + [8 * src_rank + f for f in range(8)]:
+                combos.append((side, cr, ep, 7, 42))
+    # the two counters: extreme and boundary values on a few field combinations
+    for mc, mn in ((0, 0), (0, 1), (1, 0), (99, 1), (100, 65535), (65535, 65535), (150, 2)):
+        for side, cr, ep in ((0, 0, None), (1, 15, 34), (0, 9, 24)):
+            combos.append((side, cr, ep, mc, mn))
+    if True:
+        if True:
+            for side, cr, ep, mc, mn in combos:
+                dst_digit = "6" if side == 0 else "3"
                 fields = {"side": side, "castling": cr, "ep_source": ("agg", "Some", (ep,)) if ep is not None else ("agg", "None", ()),
-                          "move_counter": ("sym", "mc"), "move_number": ("sym", "mn")}
+                          "move_counter": mc, "move_number": mn}
 
                 def mem(place, m, fields=fields):
                     p = place
@@ -390,11 +399,15 @@ def fields_rule(ctx, facts, rid):
                         raise Stuck("parse_cells is handed %r, not the first field" % (s,))
                     if l == "from_str" and "u16" in name:
                         s = m.ev(args[0])
-                        if s[0] == "str" and len(s[1]) > 2 and s[1][0] == "\x00" and s[1][-1] == "\x00":
-                            return ("agg", "Ok", (("sym", s[1].strip("\x00")),))
+                        # std's contract for u16::from_str: optional '+', decimal digits, value <= 65535
+                        t = s[1][1:] if s[0] == "str" and s[1][:1] == "+" else (s[1] if s[0] == "str" else None)
+                        if t is not None and t.isdigit() and t.isascii() and int(t) <= 65535:
+                            return ("agg", "Ok", (int(t),))
+                        if t is not None:
+                            return ("agg", "Err", (("sym", "ParseIntError"),))
                         raise Stuck("a counter is parsed from %r" % (s,))
                     return None
-                what = "side %s, rights %s, mark %s" % ("wb"[side], letters[cr], ep)
+                what = "side %s, rights %s, mark %s, counters %d/%d" % ("wb"[side], letters[cr], ep, mc, mn)
                 try:
                     mw = Machine(facts, tw, mem=mem, oracle=ora_w, on_call=on_call)
                     res = mw.start()
@@ -409,7 +422,7 @@ def fields_rule(ctx, facts, rid):
                         bad = "%s: Display does not return Ok (%s)" % (what, res[0])
                         break
                     want = " ".join([CELLS_TOKEN, "wb"[side], letters[cr], ("abcdefgh"[ep & 7] + dst_digit) if ep is not None else "-",
-                                     "\x00mc\x00", "\x00mn\x00"])
+                                     str(mc), str(mn)])
                     if text != want:
                         bad = "%s: Display writes %r, the FEN record is %r" % (what, _vis(text), _vis(want))
                         break
@@ -437,11 +450,7 @@ def fields_rule(ctx, facts, rid):
                 except (Stuck, Unsupported, Panic) as ex:
                     bad = "%s: model not evaluable: %s" % (what, str(ex)[:160])
                     break
-            if bad:
-                break
-        if bad:
-            break
-    r.check(bad is None, "fields", bad or "", site=ctx.site(disp), what="%d (side, rights, mark) combinations written and read back" % n)
+    r.check(bad is None, "fields", bad or "", site=ctx.site(disp), what="%d (side, rights, mark, counters) combinations written and read back" % n)
     r.floor(n if bad is None else 288, 288, "field combinations")
 
 
